@@ -13,9 +13,9 @@
 #include "TFEL/Config/TFELConfig.hxx"
 #include "TFEL/Math/ScalarNewtonRaphson.hxx"
 
-enum FaultKind { FK_NONE = 0, FK_NAN_VALUE, FK_PINF_VALUE, FK_NINF_VALUE, FK_ZERO_DERIVATIVE, FK_NAN_DERIVATIVE, FK_INF_DERIVATIVE, FK_COUNT };
-static const char* fk_name[] = {"none", "NaN-value", "+inf-value", "-inf-value", "zero-derivative", "NaN-derivative", "+inf-derivative"};
-enum { NFUN = 8, NBRACKET = 6, NX0 = 3, NCRIT = 2, NREGION = 3 };
+enum FaultKind { FK_NONE = 0, FK_NAN_VALUE, FK_PINF_VALUE, FK_NINF_VALUE, FK_ZERO_DERIVATIVE, FK_NAN_DERIVATIVE, FK_INF_DERIVATIVE, FK_NEG_NAN_VALUE, FK_NEG_NAN_DERIVATIVE, FK_COUNT };
+static const char* fk_name[] = {"none", "NaN-value", "+inf-value", "-inf-value", "zero-derivative", "NaN-derivative", "+inf-derivative", "negative-NaN-value", "negative-NaN-derivative"};   // the NaN an x86 FPU produces at run time (0/0, sqrt(-1)) has its sign bit set
+enum { NFUN = 8, NBRACKET = 6, NX0 = 4, NCRIT = 2, NREGION = 3 };
 static const char* fun_name[] = {"x-1", "x^3-2x-5", "atan(x)", "exp(x)-2", "x^2-4", "sign(x)sqrt|x|", "1e-310*(x-1) on a bracket of width 3e9", "tanh(1e3(x-0.1))+1e-16 (root within one ulp of the upper bound 0.1)"};
 // the last two exercise the bracket arithmetic itself: a secant slope that overflows (subnormal values, huge width) and a secant root that
 // rounds just above the upper bound
@@ -56,6 +56,7 @@ static void bracket_of(int fun, int b, double& lo, double& hi) {
 static double x0_of(int fun, int k) {
   static const double inside[] = {2.5, 3.0, 2.0, 1.5, 0.0 + 1e-300, 4.0, 2.5, -1.0};
   static const double outside[] = {20, -6, 8, -7, -9, 30, 3e9, 0.5};
+  if (k == 3) return root_of(fun);   // the initial guess is the root itself (exactly, where it is representable): the criterion still has the last word
   if (k == 0) return (fun == 4) ? 1.0 : inside[fun];
   if (k == 1) return outside[fun];
   return (fun == 4) ? 0.0 : root_of(fun) + 1e-3;   // flat derivative at the start for x^2-4, close to the root otherwise
@@ -79,7 +80,7 @@ static Verdict run(const Case& cs) {
       faulted = true;
       switch (cs.kind) {
         case FK_NAN_VALUE: val = nan; break; case FK_PINF_VALUE: val = inf; break; case FK_NINF_VALUE: val = -inf; break;
-        case FK_ZERO_DERIVATIVE: der = 0; break; case FK_NAN_DERIVATIVE: der = nan; break; default: der = inf; break;
+        case FK_ZERO_DERIVATIVE: der = 0; break; case FK_NAN_DERIVATIVE: der = nan; break; case FK_NEG_NAN_VALUE: val = -nan; break; case FK_NEG_NAN_DERIVATIVE: der = -nan; break; default: der = inf; break;
       }
     }
     log.f.push_back({x, val, der, faulted});
@@ -110,9 +111,11 @@ static Verdict run(const Case& cs) {
       const CCall& lc = log.c.back();
       if (memcmp(&lc.x, &v.x, sizeof(double)) != 0) fail("converged-at-other-point", "the criterion accepted x=" + std::to_string(lc.x) + " but " + std::to_string(v.x) + " is returned");
       if (!std::isfinite(lc.fv)) fail("converged-non-finite-value", "the criterion was satisfied with a non-finite function value");
-      // the value given to the criterion is the one the function returned at that abscissa (most recent evaluation there)
-      bool found = false;
-      for (size_t k = log.f.size(); k-- > 0;) if (memcmp(&log.f[k].x, &lc.x, sizeof(double)) == 0) { found = true; if (memcmp(&log.f[k].v, &lc.fv, sizeof(double)) != 0) fail("converged-on-stale-value", "criterion received " + std::to_string(lc.fv) + " but f(x) was " + std::to_string(log.f[k].v)); break; }
+      // the value given to the criterion is one the function returned at that abscissa (an abscissa can be evaluated more than once: the initial
+      // guess may coincide with a bound of the bracket, and a fault plan may give the two evaluations different values)
+      bool found = false, same = false; double other = 0;
+      for (size_t k = log.f.size(); k-- > 0;) if (memcmp(&log.f[k].x, &lc.x, sizeof(double)) == 0) { found = true; if (memcmp(&log.f[k].v, &lc.fv, sizeof(double)) == 0) same = true; else other = log.f[k].v; }
+      if (found && !same) fail("converged-on-stale-value", "criterion received " + std::to_string(lc.fv) + " but f(x) was " + std::to_string(other));
       if (!found) fail("converged-at-unevaluated-point", "the function was never evaluated at the returned root");
     }
   }
